@@ -18,6 +18,16 @@
 #include "private/common.h"
 #include "runtime.h"
 
+#ifdef SODIUM_VERIF
+# include <stdlib.h>
+# include <string.h>
+/* verification hooks (guarded, add-only): scripted CPUID/XGETBV answers and
+ * a start-up mask that can only clear detected features */
+void     (*_sodium_verif_cpuid_script)(unsigned int cpu_info[4U],
+                                       const unsigned int cpu_info_type) = NULL;
+uint32_t (*_sodium_verif_xgetbv_script)(void) = NULL;
+#endif
+
 typedef struct CPUFeatures_ {
     int initialized;
     int has_neon;
@@ -153,6 +163,12 @@ _sodium_runtime_arm_cpu_features(CPUFeatures * const cpu_features)
 static void
 _cpuid(unsigned int cpu_info[4U], const unsigned int cpu_info_type)
 {
+#ifdef SODIUM_VERIF
+    if (_sodium_verif_cpuid_script != NULL) {
+        _sodium_verif_cpuid_script(cpu_info, cpu_info_type);
+        return;
+    }
+#endif
     /*
      * Visual Studio has a __cpuid() intrinsic with 2 parameters,
      * but clang defines _MSC_VER as an incompatible __cpuid() macro
@@ -265,6 +281,11 @@ _sodium_runtime_intel_cpu_features(CPUFeatures * const cpu_features)
                              : "=a"(xcr0)
                              : "c"((uint32_t) 0U)
                              : "%edx");
+#  ifdef SODIUM_VERIF
+        if (_sodium_verif_xgetbv_script != NULL) {
+            xcr0 = _sodium_verif_xgetbv_script();
+        }
+#  endif
 # endif
         if ((xcr0 & (XCR0_SSE | XCR0_AVX)) == (XCR0_SSE | XCR0_AVX)) {
             cpu_features->has_avx = 1;
@@ -315,6 +336,29 @@ _sodium_runtime_intel_cpu_features(CPUFeatures * const cpu_features)
     return 0;
 }
 
+#ifdef SODIUM_VERIF
+/* is `name` an element of the comma-separated `list`? */
+static int
+_sodium_verif_listed(const char *list, const char *name)
+{
+    const size_t name_len = strlen(name);
+
+    while (*list != 0) {
+        const char *end = strchr(list, ',');
+        size_t      len = (end != NULL) ? (size_t) (end - list) : strlen(list);
+
+        if (len == name_len && memcmp(list, name, len) == 0) {
+            return 1;
+        }
+        list += len;
+        if (*list == ',') {
+            list++;
+        }
+    }
+    return 0;
+}
+#endif
+
 int
 _sodium_runtime_get_cpu_features(void)
 {
@@ -322,6 +366,24 @@ _sodium_runtime_get_cpu_features(void)
 
     ret &= _sodium_runtime_arm_cpu_features(&_cpu_features);
     ret &= _sodium_runtime_intel_cpu_features(&_cpu_features);
+#ifdef SODIUM_VERIF
+    {
+        const char *disable = getenv("SODIUM_VERIF_CPU_DISABLE");
+
+        if (disable != NULL) {
+            if (_sodium_verif_listed(disable, "avx512f")) _cpu_features.has_avx512f = 0;
+            if (_sodium_verif_listed(disable, "avx2")) _cpu_features.has_avx2 = 0;
+            if (_sodium_verif_listed(disable, "avx")) _cpu_features.has_avx = 0;
+            if (_sodium_verif_listed(disable, "sse41")) _cpu_features.has_sse41 = 0;
+            if (_sodium_verif_listed(disable, "ssse3")) _cpu_features.has_ssse3 = 0;
+            if (_sodium_verif_listed(disable, "sse3")) _cpu_features.has_sse3 = 0;
+            if (_sodium_verif_listed(disable, "sse2")) _cpu_features.has_sse2 = 0;
+            if (_sodium_verif_listed(disable, "aesni")) _cpu_features.has_aesni = 0;
+            if (_sodium_verif_listed(disable, "pclmul")) _cpu_features.has_pclmul = 0;
+            if (_sodium_verif_listed(disable, "rdrand")) _cpu_features.has_rdrand = 0;
+        }
+    }
+#endif
     _cpu_features.initialized = 1;
 
     return ret;
